@@ -96,9 +96,22 @@ func Start(o Options) (*Env, error) {
 		addr := fmt.Sprintf("localhost:%d", port)
 		conf := &server.Config{
 			RPC: &rpc.Config{
-				Port:              port,
-				ReadHeaderTimeout: server.DefaultRPCReadHeaderTimeout.String(),
-				IdleTimeout:       server.DefaultRPCIdleTimeout.String(),
+				Port: port,
+				// The server must never be the side that closes a connection the client
+				// still counts as usable. net/http starts ReadHeaderTimeout (5s by
+				// default) for the FIRST request of a connection at accept time, and Go's
+				// http.Transport parks a dialled connection unused in its idle pool
+				// whenever the request that started the dial was served by another
+				// connection first. With the default, the server closes such a spare
+				// connection 5s after the dial; a request that picks it from the pool at
+				// that moment fails with "connection reset by peer" / "use of closed
+				// network connection" (and is not retried: POST, first use of the
+				// connection). Under load that was seen as request-failed in C16 (conn
+				// age 5.5s, first write, no read) although the server's handlers were
+				// never involved. Neither timeout is the subject of a property; with 1h
+				// the clients' own idle timeouts (60s / 90s) always close first.
+				ReadHeaderTimeout: "1h",
+				IdleTimeout:       "1h",
 			},
 			Profiling: &profiling.Config{Port: freePort()},
 			Membership: &membership.Config{
